@@ -14,7 +14,7 @@ Mirrors the code line by line, quirks included:
   `consume_until_token_with_context` the *start* line of the peeked token;
 * after `consume_until_token_with_context` the current token is the last *trivia* token that was
   skipped, so `current_indent()` / `current_line()` are then read from a trivia token;
-* `KotoLexer::peek(n)` computes `queue_len + 1 - max(n, queue_len)` in `usize`.
+* `KotoLexer::peek(n)` fills the queue up to `n + 1` tokens (`saturating_sub`, /repo b5b4493).
 -/
 import KotoVerif.Model.Lexer
 
@@ -203,22 +203,18 @@ def consumeNextTokenOnSameLine (c : Cur) : Option Token × Cur := consumeSameLin
 /-! ### `KotoLexer::peek` / `next`: the token queue
 
 `rest` = the tokens the lexer has not handed out yet, `queued` = `token_queue.len()` (the first
-`queued` tokens of `rest` sit in the queue). -/
+`queued` tokens of `rest` sit in the queue). Mirrors /repo b5b4493:
+`tokens_to_add = (n + 1).saturating_sub(token_queue.len())` (before that commit the count was
+`token_queue_len + 1 - n.max(token_queue_len)`: a `usize` underflow for `n > len + 1`, `None` for
+`n = len + 1`, and one token read too many for `n < len`). -/
 
-inductive QueuePeek where
-  /-- `token_queue_len + 1 - n.max(token_queue_len)` underflows (`usize`): a panic with overflow
-  checks, otherwise the whole remaining input is lexed into the queue -/
-  | underflow
-  | ok (tok : Option Lexed) (queued : Nat)
-  deriving Repr, DecidableEq, Inhabited
+/-- `KotoLexer::peek(n)`: the token returned and the new queue length -/
+def queuePeek (rest : List Lexed) (queued n : Nat) : Option Lexed × Nat :=
+  let tokensToAdd := (n + 1) - queued                       -- saturating_sub
+  let queued' := min (queued + tokensToAdd) rest.length     -- the loop breaks when the lexer ends
+  (if n < queued' then rest[n]? else none, queued')         -- token_queue.get(n)
 
-def queuePeek (rest : List Lexed) (queued n : Nat) : QueuePeek :=
-  if max n queued > queued + 1 then .underflow
-  else
-    let tokensToAdd := queued + 1 - max n queued
-    let queued' := min (queued + tokensToAdd) rest.length   -- the loop breaks when the lexer ends
-    .ok (if n < queued' then rest[n]? else none) queued'
-
+/-- `KotoLexer::next`: pops the queue, else lexes the next token -/
 def queueNext (rest : List Lexed) (queued : Nat) : Option Lexed × List Lexed × Nat :=
   match rest with
   | [] => (none, [], 0)
